@@ -8,7 +8,7 @@ import os
 import re
 
 from harness.common import facts as F
-from harness.c10 import factsx, translate
+from harness.c10 import factsx, translate, translate_factory
 from harness.common import build as _build
 
 ID = 'C10'
@@ -16,7 +16,9 @@ HERE = os.path.dirname(os.path.abspath(__file__))
 CASES = {'quick': 4000, 'thorough': 100000}
 PARALLEL = False          # to_wire needs the cookie texts of the implementation run, which is memoised in-process
 ALLOWED_AXIOMS = ()
-RULE = ('chains of 1-6 requests through a real SignedCookieSessionFactory, each presenting the cookie last set / a tampered '
+RULE = ('SignedCookieSessionFactory called with option values AS GIVEN (int / bool / float / digit string / None / refused '
+        'strings for timeout, reissue_time, max_age; any truth value for set_on_exception; salt None / empty / latin-1 / not); '
+        'chains of 1-6 requests through the factory, each presenting the cookie last set / a tampered '
         'variant / none; 0-6 operations per request from the 23 public operations, optional arguments given / omitted / passed by keyword; clock advanced by 0,1,reissue+-1,'
         'timeout+-1; options varied.  non-trivial = the chain set at least one cookie AND a later request presented that '
         'cookie or an edit of it (so persistence or rejection was really exercised); distinct by full case')
@@ -30,9 +32,14 @@ ASSUMPTIONS = [
     'hmac, json and base64 are abstract functions in the theorems; the premises deser(ser p)=Some p, unb64(b64 x)=Some x and '
     'length(mac k m)=ds are explicit hypotheses of the theorems that need them',
     'an ALTERED cookie is a text that differs from the cookie most recently set; the specification demands a new empty '
-    'session for every such text (open finding C10-lenient-base64-edit-accepted: the lenient base64 decoder maps many '
-    'texts to the same signed bytes); the chain theorems carry the premise chain_ok (altered texts presented are ones '
-    'the signature check refuses) and the clause is refuted by C10_altered_cookie_rejected_refuted; the key is salt++secret',
+    'session for every such text.  Since /repo 68cd719 only the canonical text of a cookie is accepted (fact '
+    'canonical_check, now derived from the TRANSLATION of SignedCookieSessionFactory; theorem C10_canonical_check_on), so '
+    'the premise of the chain theorem is unforgeability alone (C10_chain_refines_spec_canonical: an altered text is not '
+    'b64 (mac key m ++ m) for any byte string m); the older _partial forms with chain_ok are kept; the key is '
+    'salt ++ secret, latin-1 if both can be encoded so, else UTF-8 (WebOb)',
+    'option values: None / bool / int / float on the 1/4 grid / str; int() of a string is modelled for ASCII digit '
+    'strings (value) and for strings containing an ASCII character no int literal can contain (raises); other strings '
+    "(' 5', '+5', '1_0', non-ASCII digits) are outside the model (case skipped)",
     'all calls made inside one operation see the same clock value',
 ]
 TRUSTED = [
@@ -43,18 +50,27 @@ TRUSTED = [
     'coq/Model/C10_base.v primitives: dict get/set/pop/... on insertion-ordered association lists, Python == on JSON '
     'values, unpack3, float_of, loads (SignedSerializer), signed_dumps, append_at / py_in (aliased flash list), '
     'register_cb = identity (the callback registration is represented by the dirty flag) -- validated by correspondence',
-    'the class-body facts (which wrapper each method name is bound to; configuration attributes pinned literally) and the '
-    'pin of SignedCookieSessionFactory',
+    'the class-body facts (which wrapper each method name is bound to; the cookie-attribute class attributes compared '
+    'literally); the factory-layer translator harness/c10/translate_factory.py with its primitive table (padding + '
+    'urlsafe_b64decode = unb64, urlsafe_b64encode().rstrip = b64, SignedSerializer(secret, salt, hashalg, JSON) = SSigned, '
+    'int() = int_of, truth value = py_truth) and WebOb\'s key derivation salted_key (validated by correspondence: the model '
+    'derives the key itself, a wrong key shows as a missing digest)',
     'WebOb SignedSerializer/JSONSerializer, hmac, hashlib, json, base64: abstract in the proofs; in the correspondence run '
     'json.dumps and urlsafe_b64encode are concrete Gallina functions (validated: the cookie text must match exactly), '
     'hmac / b64decode / json.loads answers are computed by the real libraries and shipped as tables',
 ]
 TECHNIQUE = ('Coq proof (induction over operation lists and request chains) about a Gallina program whose control flow is '
-             'translated from src/pyramid/session.py on every run (harness/c10/translate.py), proved equal to a hand-written '
+             'translated from src/pyramid/session.py on every run (harness/c10/translate.py, translate_factory.py), proved equal to a hand-written '
              'reference model; wrapper table regenerated from the class body; extracted-program differential correspondence')
-LEVEL_TEXT = ('Machine-checked theorems (42, closed under the global context; the chain theorems are _partial: see ASSUMPTIONS).  The program regenerated from session.py on this '
+LEVEL_TEXT = ('Machine-checked theorems (57, closed under the global context; C10_chain_refines_spec_canonical carries only the '
+              'unforgeability premise, the older chain theorems are _partial: see ASSUMPTIONS).  The program regenerated from session.py on this '
               'run (manage_accessed/manage_changed, changed, invalidate, flash, pop_flash, peek_flash, new_csrf_token, '
-              'get_csrf_token, __init__, _set_cookie; wrappers chosen by the regenerated class table) equals the reference '
+              'get_csrf_token, __init__, _set_cookie; wrappers chosen by the regenerated class table; and the factory layer: '
+              'SignedCookieSessionFactory, _CanonicalBase64Serializer.loads/dumps, the int() conversion of the options in the class '
+              'body) equals the reference model for all inputs; the serializer object the factory builds is the loads/dumps of the '
+              'session theorems, the options the class carries are the documented conversion of the arguments (None stays None, '
+              '0/False stay 0, refused values make the factory call raise), end to end from the factory arguments to the store '
+              'semantics (C10_factory_chain_refines_spec).  The session program equals the reference '
               'model for all inputs, and the property holds of it literally: over whole request histories it refines the '
               'declarative store semantics (persistence incl. flash queues and CSRF token, cookie set iff modified or accessed '
               'past reissue_time and not suppressed by an exception, creation time preserved, timeout kept at = / emptied one '
@@ -74,12 +90,25 @@ def facts(src):
                     'timeout_cmp': vals['timeout_cmp'], 'reissue_cmp': vals['reissue_cmp'],
                     'limit_cmp': vals['limit_cmp'], 'cookie_limit': vals['cookie_limit'],
                     'flash_prefix': vals['flash_prefix'], 'csrf_key': vals['csrf_key'],
-                    'payload_fields': vals['payload_fields'], 'canonical_check': vals.get('canonical_check', False)})
-    _F.update(vals)
-    # the control flow of the session code, regenerated from the source (harness/c10/translate.py)
+                    'payload_fields': vals['payload_fields']})
+    # the control flow of the session code, regenerated from the source (harness/c10/translate.py), and of the
+    # factory layer around it (harness/c10/translate_factory.py), which also decides the fact canonical_check
     gen, tproblems, tsummary = translate.translate_tree(src, vals.get('urandom_n', 20))
     problems += tproblems
     summary.update(tsummary)
+    try:
+        with open(os.path.join(src, 'pyramid/session.py')) as f:
+            text = f.read()
+    except OSError:
+        text = ''
+    fgen, fproblems, fsummary, canonical = translate_factory.translate_source(
+        text, vals.get('defaults', {}).get('BaseCookieSessionFactory', {}))
+    gen += '\n' + fgen
+    problems += fproblems
+    summary.update(fsummary)
+    vals['canonical_check'] = canonical
+    summary['canonical_check'] = canonical
+    _F.update(vals)
     _build.write_if_changed(os.path.join(_build.COQ, 'Gen', 'Prog_C10.v'), gen)
     return {'coq': factsx.emit(vals), 'summary': summary, 'problems': problems}
 
@@ -96,6 +125,39 @@ def ticks(t):
 
 
 SPEC_LIMIT = 4064        # the property's cookie size limit (coq/Model/C10.v spec_limit)
+
+
+# ------------------------------------------------------------------ option values as the caller passes them
+def cfgv(v):
+    """wire form of an option value (coq/Model/C10_base.v cfgv): None / int / bool / float on the tick grid / str"""
+    if v is None:
+        return []
+    if isinstance(v, bool):
+        return [1, int(v)]
+    if isinstance(v, int):
+        return [0, v]
+    if isinstance(v, float):
+        return [2, ticks(v)]
+    if isinstance(v, str):
+        return [3, v]
+    raise ValueError('option value %r' % (v,))
+
+
+def eff_int(v):
+    """what `x if x is None else int(x)` makes of an option value; 'raises' if int() fails (harness-side helper for
+    the generator and for kinds() only: the judged conversion is the model's)"""
+    if v is None:
+        return None
+    try:
+        return int(v)
+    except (TypeError, ValueError):
+        return 'raises'
+
+
+def opt(o, name):
+    """the option value of a case, documented default when the case does not give it"""
+    dflt = {'timeout': 1200, 'reissue': 0, 'soe': True, 'max_age': None, 'salt': 'pyramid.session.'}[name]
+    return dflt if o.get('defaults') else o.get(name, dflt)
 
 # ------------------------------------------------------------------ JSON values <-> tagged form
 class Unmodelled(Exception):
@@ -208,6 +270,7 @@ def _serializer(o, **over):
 
 
 def _factory(o):
+    # option values go in AS THE CASE GIVES THEM (int / bool / float / str / None): converting them is the code's job
     kw = dict(timeout=o.get('timeout', 1200), reissue_time=o.get('reissue', 0), set_on_exception=o.get('soe', True),
               hashalg=o.get('hashalg', 'sha512'), salt=o.get('salt', 'pyramid.session.'))
     for k in ('cookie_name', 'max_age', 'path', 'domain', 'secure', 'httponly', 'samesite'):
@@ -288,8 +351,18 @@ def _snap(sess):
             1 if sess.new else 0, 1 if sess._dirty else 0]
 
 
+class _StrSub(str):
+    """a str subclass used as key (json and dict treat it as the str it is)"""
+
+
+def _arg_dict(o):
+    return json.loads(json.dumps(o['v']))
+
+
 def _do_op(sess, o):
     n = o['op']
+    if o.get('ksub') and 'k' in o:
+        o = dict(o, k=_StrSub(o['k']))
     # optional arguments that the case does not give are OMITTED in the call (the model takes the documented default:
     # ISession.flash(msg, queue='', allow_duplicate=True), pop_flash/peek_flash(queue=''), dict.get/setdefault -> None);
     # 'kw': True passes the optional ones by keyword (the ISession parameter names are part of the API)
@@ -312,7 +385,18 @@ def _do_op(sess, o):
     if n == 'clear':
         return sess.clear()
     if n == 'update':
-        return sess.update(json.loads(json.dumps(o['v'])))
+        # the less common call forms of dict.update: list of pairs, a one-shot iterator, keywords, both
+        d, how = _arg_dict(o), o.get('how')
+        if how == 'pairs':
+            return sess.update(list(d.items()))
+        if how == 'iter':
+            return sess.update(iter(list(d.items())))
+        if how == 'kwargs':
+            return sess.update(**d)
+        if how == 'both':
+            items = list(d.items())
+            return sess.update(dict(items[:1]), **dict(items[1:]))
+        return sess.update(d)
     if n == 'setdefault':
         return sess.setdefault(o['k'], json.loads(json.dumps(o['v']))) if 'v' in o else sess.setdefault(o['k'])
     if n == 'pop':
@@ -351,7 +435,8 @@ def _do_op(sess, o):
         return sess.invalidate()
     if n == 'ior':
         import operator
-        operator.ior(sess, json.loads(json.dumps(o['v'])))      # session |= {...}
+        d = _arg_dict(o)
+        operator.ior(sess, list(d.items()) if o.get('how') == 'pairs' else d)      # session |= {...} / |= [(k, v), ..]
         return None
     raise ValueError(n)
 
@@ -396,7 +481,7 @@ class _ViewFailed(Exception):
     pass
 
 
-def _make_app(factory):
+def _make_app(factory, how=True):
     """a real Router: session factory configured, one view that drives the session, one exception view"""
     from pyramid.config import Configurator
     box = {}
@@ -422,7 +507,11 @@ def _make_app(factory):
         resp.status_int = 500
         return resp
 
-    config = Configurator(session_factory=factory)
+    if how == 'setter':                     # the other public way to configure the factory
+        config = Configurator()
+        config.set_session_factory(factory)
+    else:
+        config = Configurator(session_factory=factory)
     config.add_route('r', '/')
     config.add_view(view, route_name='r')
     config.add_view(failed, context=_ViewFailed)
@@ -449,6 +538,9 @@ def _through_router(app_box, name, text, r, clock, osx, payloads, o, attr_bad):
 ATTR_KEYS = ('max_age', 'path', 'domain', 'secure', 'httponly', 'samesite')
 
 
+_CUR = {'max_ages': []}      # Max-Age attributes seen during the chain being run
+
+
 def _check_attrs(o, header, name):
     """Set-Cookie attributes must be the configured ones (returns a list of complaints)."""
     parts = header.split('; ')
@@ -458,6 +550,12 @@ def _check_attrs(o, header, name):
         got[kv[0].lower()] = kv[1] if len(kv) == 2 else True
     d = {} if o.get('defaults') else o
     want = {'path': d.get('path', '/'), 'samesite': d.get('samesite', 'Lax')}
+    if True:
+        seen = _CUR['max_ages']
+        try:
+            seen.append(int(got['max-age']) if 'max-age' in got else 'absent')
+        except ValueError:
+            seen.append('?' + str(got['max-age']))
     if d.get('max_age') is not None:
         want['max-age'] = str(int(d['max_age']))
     if d.get('domain'):
@@ -493,12 +591,21 @@ def _chain(case):
     old_time, old_os = ps.time, ps.os
     ps.time, ps.os = clock, osx
     obs, texts, attr_bad, payloads = [], [], [], []
+    _CUR['max_ages'] = max_ages = []
     try:
-        factory = _factory(o)
+        try:
+            factory = _factory(o)
+        except (TypeError, ValueError):
+            # an option value int() refuses: the factory call itself raises, at configuration time
+            ss = _serializer(o)
+            out = {'obs': ['factory-raises'], 'texts': [], 'payloads': [], 'key': ss.salted_secret,
+                   'ds': ss.digest_size, 'alg': o.get('hashalg', 'sha512') if not o.get('defaults') else 'sha512'}
+            _memo[key] = out
+            return out
         name = 'session' if o.get('defaults') else o.get('cookie_name', 'session')
         last, history = None, []
         via_router = bool(case.get('router'))
-        app = _make_app(factory) if via_router else None
+        app = _make_app(factory, case.get('router')) if via_router else None
         for r in case['reqs']:
             text = materialise(r['src'], last, history, o)
             if text is not None:
@@ -546,7 +653,7 @@ def _chain(case):
     finally:
         ps.time, ps.os = old_time, old_os
     ss = _serializer(o)
-    out = {'obs': [obs, attr_bad], 'texts': texts, 'payloads': payloads, 'key': ss.salted_secret, 'ds': ss.digest_size,
+    out = {'obs': [obs, attr_bad, sorted(set(max_ages), key=repr)], 'texts': texts, 'payloads': payloads, 'key': ss.salted_secret, 'ds': ss.digest_size,
            'alg': o.get('hashalg', 'sha512') if not o.get('defaults') else 'sha512'}
     if len(_memo) > 20000:
         _memo.clear()
@@ -594,14 +701,15 @@ def _oracle(key, alg, ds, texts, payloads=()):
 def to_wire(case):
     ch = _chain(case)
     o = case['opts']
-    d = {'timeout': 1200, 'reissue': 0, 'soe': True} if o.get('defaults') else \
-        {'timeout': o.get('timeout', 1200), 'reissue': o.get('reissue', 0), 'soe': o.get('soe', True)}
-    opts = [ch['key'], [] if d['timeout'] is None else [int(d['timeout'])],
-            [] if d['reissue'] is None else [int(d['reissue'])], 1 if d['soe'] else 0]
+    salt = opt(o, 'salt')
+    # the factory's ARGUMENTS, unconverted: the model (regenerated factory layer) derives key and options itself
+    opts = [o['secret'], [] if salt is None else [salt], cfgv(opt(o, 'max_age')), cfgv(opt(o, 'timeout')),
+            cfgv(opt(o, 'reissue')), cfgv(opt(o, 'soe'))]
+    chain_obs = ch['obs'][0] if ch['obs'] != ['factory-raises'] else []
     reqs = []
     # presented texts in order (only needed for the literal, i.e. not-last, sources)
     last, history = None, []
-    for r, ob in zip(case['reqs'], ch['obs'][0]):
+    for r, ob in zip(case['reqs'], chain_obs):
         k = r['src']['kind']
         text = materialise(r['src'], last, history, o)
         if k == 'last' or (k in ALTERING and text is not None and text == last):
@@ -626,13 +734,18 @@ def _has_unm(v):
 
 
 def from_wire(case, raw):
-    if raw == [['bad']] or not isinstance(raw, list) or len(raw) != 2:
+    if isinstance(raw, list) and len(raw) == 2 and raw[0] == 1:
+        # the regenerated factory raises; the spec is present iff the documented reading of the options accepts them
+        return {'model': ['factory-raises'], 'spec': raw[1][0] if raw[1] else None}
+    if raw == [2]:
+        return {'model': None, 'spec': None}                     # an option string the model does not decide
+    if raw == [['bad']] or not isinstance(raw, list) or len(raw) != 3:
         return {'model': ['MODEL-BAD', raw], 'spec': None}
-    model, spec = raw
+    model, spec, max_age = raw
     for ob in model:
         if ob == [2] or (ob[0] == 0 and any(r == [2] for r in ob[2])):
             return {'model': None, 'spec': None}        # outside the modelled domain: nothing is compared
-    return {'model': [model, []], 'spec': spec}
+    return {'model': [model, [], max_age], 'spec': spec}
 
 
 def equiv(case, obs, model):
@@ -640,9 +753,14 @@ def equiv(case, obs, model):
     a, b = obs, model
     if b == [] or b is None:
         return True                   # outside the modelled domain (from_wire returned no model)
-    if len(b) != 2 or b[0] == 'MODEL-BAD':
+    if a == ['factory-raises'] or b == ['factory-raises']:
+        return a == b
+    if len(b) != 3 or b[0] == 'MODEL-BAD':
         return False
     if a[1] != b[1] or len(a[0]) != len(b[0]):
+        return False
+    want = b[2][0] if b[2] else 'absent'      # the Max-Age attribute every cookie must carry
+    if any(x != want for x in a[2]):
         return False
     for x, y in zip(a[0], b[0]):
         if x[0] == 1 and y == [1]:
@@ -656,7 +774,9 @@ def equiv(case, obs, model):
 def spec_holds(case, obs, spec):
     if spec is None:
         return None
-    chain, attr_bad = obs
+    if obs == ['factory-raises']:
+        return False          # documented option values, yet the factory call raised: no session at all
+    chain, attr_bad = obs[0], obs[1]
     if attr_bad:
         return False
     constrained = False
@@ -708,6 +828,8 @@ def classify(case, obs, spec):
     C10-lenient-base64-edit-accepted: every deviation disappears -- and the implementation's observations stay
     EXACTLY the same -- when each altered cookie text that the real base64 decoder maps to the same bytes as the
     cookie last set is replaced by that cookie itself."""
+    if obs == ['factory-raises']:
+        return None
     if any(op['op'] == 'ior' for r in case['reqs'] for op in r['ops']):
         c2 = json.loads(json.dumps(case))
         for r in c2['reqs']:
@@ -743,6 +865,8 @@ def classify(case, obs, spec):
 
 
 def nontrivial(case, obs):
+    if obs == ['factory-raises']:
+        return False
     chain = obs[0]
     seen_cookie = False
     for r, ob in zip(case['reqs'], chain):
@@ -756,13 +880,29 @@ def nontrivial(case, obs):
 def kinds(case, obs):
     out = set()
     o = case['opts']
-    out.add('timeout-%s' % ('default' if o.get('defaults') else 'none' if o.get('timeout', 1200) is None else 'set'))
-    out.add('reissue-%s' % ('default' if o.get('defaults') else 'none' if o.get('reissue', 0) is None else
-                            'zero' if o.get('reissue', 0) == 0 else 'set'))
+    for nm in ('timeout', 'reissue', 'max_age', 'soe'):
+        v = opt(o, nm)
+        ty = 'none' if v is None else type(v).__name__
+        if nm in o and not o.get('defaults'):
+            out.add('opt-%s-%s' % (nm, ty))
+            if v is not None and not isinstance(v, str) and not v and nm != 'soe':
+                out.add('opt-%s-falsy-but-set' % nm)
+            if nm == 'soe' and not isinstance(v, bool):
+                out.add('opt-soe-nonbool-%s' % ('truthy' if v else 'falsy'))
+    if not o.get('defaults') and 'salt' in o:
+        out.add('salt-%s' % ('none' if o['salt'] is None else 'empty' if o['salt'] == '' else 'default'
+                             if o['salt'] == 'pyramid.session.' else 'custom'))
+    if obs == ['factory-raises']:
+        out.add('factory-raises')
+        return sorted(out)
+    to_eff, ri_eff = eff_int(opt(o, 'timeout')), eff_int(opt(o, 'reissue'))
+    out.add('timeout-%s' % ('default' if o.get('defaults') else 'none' if to_eff is None else 'set'))
+    out.add('reissue-%s' % ('default' if o.get('defaults') else 'none' if ri_eff is None else
+                            'zero' if ri_eff == 0 else 'set'))
     out.add('len%d' % len(case['reqs']))
     out.add('clock-fractional' if any(r['t'] != int(r['t']) or any(op['t'] != int(op['t']) for op in r['ops'])
                                       for r in case['reqs']) else 'clock-whole-seconds')
-    out.add('via-router' if case.get('router') else 'via-factory')
+    out.add('via-router' + ('-set_session_factory' if case.get('router') == 'setter' else '') if case.get('router') else 'via-factory')
     prev = None
     for r, ob in zip(case['reqs'], obs[0]):
         k = r['src']['kind']
@@ -776,9 +916,8 @@ def kinds(case, obs):
         if k not in ('none', 'last', 'forged', 'stale'):
             out.add('tamper-%s-%s' % (k, 'rejected' if s0[4] else 'accepted'))
         if k == 'last' and prev is not None and not s0[4]:
-            to = None if o.get('defaults') else o.get('timeout', 1200)
-            to = 1200 if o.get('defaults') else to
-            if to is not None:
+            to = to_eff
+            if to is not None and to != 'raises':
                 d = r['t'] - prev
                 out.add('age-fractional' if d != int(d) else 'age-whole')
                 out.add('age-at-timeout' if d == to else 'age-timeout+1tick' if d == to + 1.0 / TICK else
@@ -794,6 +933,10 @@ def kinds(case, obs):
             out.add('exc')
         for op, x in zip(r['ops'], rs):
             out.add('op-' + op['op'])
+            if op.get('how'):
+                out.add('op-%s-%s' % (op['op'], op['how']))
+            if op.get('ksub'):
+                out.add('key-str-subclass')
             if op['op'] == 'flash':
                 out.add('flash-allow_duplicate-%s' % ('default' if 'dup' not in op else op['dup']))
                 out.add('flash-queue-%s' % ('default' if 'q' not in op else 'given'))
@@ -819,7 +962,9 @@ def explain(item):
     """which request of the chain deviates from the store semantics, and in which field"""
     out = []
     try:
-        chain, attr_bad = item['impl']
+        if item['impl'] == ['factory-raises']:
+            return ['the factory call raised although every option value is one the documentation accepts']
+        chain, attr_bad = item['impl'][0], item['impl'][1]
         if attr_bad:
             out.append('Set-Cookie attributes differ from the options: %s' % attr_bad)
         for i, (ob, sp) in enumerate(zip(chain, item.get('spec') or [])):
